@@ -302,7 +302,7 @@ func (b *BaseStore) InitBaseStore(ipfs coreiface.CoreAPI, identity *identityprov
 
 			switch evt := e.(type) {
 			case replicator.EventLoadAdded:
-				if !b.isOwnEntry(evt.Entry) {
+				if evt.LogID != b.id || !b.isOwnEntry(evt.Entry) {
 					continue
 				}
 
@@ -337,7 +337,7 @@ func (b *BaseStore) InitBaseStore(ipfs coreiface.CoreAPI, identity *identityprov
 				b.replicationLoadComplete(ctx, logs)
 
 			case replicator.EventLoadProgress:
-				if !b.isOwnEntry(evt.Entry) {
+				if evt.LogID != b.id || !b.isOwnEntry(evt.Entry) {
 					continue
 				}
 
@@ -392,8 +392,10 @@ func (b *BaseStore) InitBaseStore(ipfs coreiface.CoreAPI, identity *identityprov
 	return nil
 }
 
-// isOwnEntry tells whether an entry carried by a replicator event belongs to
-// this store's log (the event bus is shared by all stores of an instance).
+// isOwnEntry tells whether an entry carried by a replicator event names this
+// store's log. The event bus is shared by all stores of an instance: where an
+// event comes from is told by its LogID field, the entry's own log id is
+// chosen by whoever wrote it.
 func (b *BaseStore) isOwnEntry(e ipfslog.Entry) bool {
 	return e != nil && e.Defined() && e.GetLogID() == b.id
 }
